@@ -46,13 +46,22 @@ def fn(drv, logic, argstr, seed):
 
 
 def pair_unit(arg):
-    logic, argstrs, seed, budget = arg
+    logic, argstrs, seed, budget, maxlen = arg
     from pytableaux.logics import registry
     registry.import_all()
     out = dict(logic=logic, pairs=0, paths=0, decisions=0, queries=0, solver_time=0.0,
                bad=[], inexhausted=[], samples=[], replays=0, maxlen=0)
     drv = SymDriver()
+    out['skipped_long'] = []
+    from pytableaux.lang import Argument
+    from pytableaux.proof import Tableau
     for argstr in argstrs:
+        reset_order(seed)
+        natural = len(Tableau(logic, Argument(argstr)).build().history)
+        if natural > maxlen:
+            # outside the stated bound on proof length (cost grows quadratically)
+            out['skipped_long'].append((argstr, natural))
+            continue
         ex = Explorer((), max_paths=400, max_seconds=budget)
         paths = ex.run(lambda: fn(drv, logic, argstr, seed))
         st = ex.stats()
@@ -94,7 +103,7 @@ def plan(ctx):
         else:
             sel = pool + special + fam.random_args(ctx.seed, 30)
         sel = list(dict.fromkeys(sel))
-        units.append((name, sel, ctx.seed, 60 if ctx.quick else 300))
+        units.append((name, sel, ctx.seed, 120 if ctx.quick else 600, 40 if ctx.quick else 120))
     return units
 
 
@@ -107,7 +116,9 @@ def run(ctx):
     st_time = 0.0
     samples = []
     maxlen = 0
+    skipped = []
     for r in results:
+        skipped += [f'{r["logic"]} {a} ({n} steps)' for a, n in r['skipped_long']]
         paths += r['paths']
         trans += r['decisions']
         queries += r['queries']
@@ -125,10 +136,12 @@ def run(ctx):
                                error=b['error']))
     rep.coverage = dict(
         states=paths, transitions=trans, traces_validated_against_impl=0, samples=samples[:4],
-        pairs=pairs, longest_proof=maxlen,
+        pairs=pairs, longest_proof=maxlen, skipped_longer_than_bound=skipped[:40],
+        skipped_count=len(skipped),
         bounds=dict(arguments='examples + modal + first-order shapes (families/args.py), '
                     + ('14 per logic by seed + 5 fixed' if ctx.quick else 'all + 30 random per logic'),
                     step_limit='k ranges over all integers (symbolic); one class per prefix',
+                    proof_length=f'natural length <= {40 if ctx.quick else 120} steps',
                     options='defaults', order_seed=ctx.seed),
         solver=dict(queries=queries, solver_time_s=round(st_time, 2)),
         functions_executed=['Tableau.__init__/logic/argument setters/build_trunk/step/next/finish',
